@@ -1,10 +1,14 @@
 package main
 
 import (
+	"bytes"
+	"crypto"
+	"crypto/rand"
 	"crypto/x509"
 	"fmt"
 	"io/ioutil"
 	"math"
+	"math/big"
 	"net"
 	"net/http"
 	"net/http/httptest"
@@ -108,7 +112,7 @@ func (k c03Knob) values(thorough bool) []c03KnobValue {
 		max := int64(1)<<uint(bits-1) - 1
 		vs := []int64{100000000, max, -1}
 		if thorough {
-			vs = append(vs, 0, 1, 25, 73, 2000, -max - 1)
+			vs = append(vs, 0, 1, 25, 73, 2000, -max-1)
 		}
 		for _, x := range vs {
 			x := x
@@ -279,6 +283,83 @@ func c03TrySetup(t *testing.T, edit func(c *AppConfigFile, dir string)) (env *ve
 	return env, nil
 }
 
+// ---------------------------------------------------------------- the CA-validity dimension
+//
+// The validity of the ISSUING CA certificate is part of the daemon's state (made at unseal time from
+// the wall clock of that moment; the clock may have been ahead then, or the CA may be about to expire).
+// The property counts every bound from the moment of issuance: the CA's own dates are not an input of
+// the window.  The harness installs self-signed CA certificates made with the state's own signers (the
+// way generateCADer / generateSelfRoleRequestingCADer make them: same subject, same key usage, self
+// signed) but with a chosen NotBefore / NotAfter, in every place the issuing paths read
+// (state.caCertDer entries, state.selfRoleCaCertDer), drives every X.509 issuing path and restores.
+
+type c03CAVal struct {
+	desc   string
+	nbOff  time.Duration // relative to the moment of installation
+	naOff  time.Duration
+	nb, na int64 // as installed (seconds)
+}
+
+func c03CAValidities() []c03CAVal {
+	var out []c03CAVal
+	for _, nb := range []time.Duration{-time.Hour, 0, 40 * time.Minute} {
+		for _, na := range []time.Duration{8 * 365 * 24 * time.Hour, 10 * time.Minute} {
+			out = append(out, c03CAVal{desc: fmt.Sprintf("CA NotBefore=now%+dm NotAfter=now%+dm", int64(nb/time.Minute), int64(na/time.Minute)), nbOff: nb, naOff: na})
+		}
+	}
+	return out
+}
+
+// a self-signed CA certificate like `old` (subject, key usage) signed by whichever signer of the
+// state owns its key, valid from nb to na
+func c03SelfSignedLike(old []byte, signers []crypto.Signer, nb, na time.Time) ([]byte, error) {
+	oc, err := x509.ParseCertificate(old)
+	if err != nil {
+		return nil, err
+	}
+	want, err := x509.MarshalPKIXPublicKey(oc.PublicKey)
+	if err != nil {
+		return nil, err
+	}
+	for _, s := range signers {
+		if s == nil {
+			continue
+		}
+		got, err := x509.MarshalPKIXPublicKey(s.Public())
+		if err != nil || !bytes.Equal(got, want) {
+			continue
+		}
+		serial, err := rand.Int(rand.Reader, new(big.Int).Lsh(big.NewInt(1), 128))
+		if err != nil {
+			return nil, err
+		}
+		tmpl := x509.Certificate{SerialNumber: serial, Subject: oc.Subject, NotBefore: nb, NotAfter: na,
+			KeyUsage: oc.KeyUsage, BasicConstraintsValid: true, IsCA: true}
+		return x509.CreateCertificate(rand.Reader, &tmpl, &tmpl, s.Public(), s)
+	}
+	return nil, fmt.Errorf("no signer of the state owns the key of CA certificate %q", oc.Subject.CommonName)
+}
+
+// replaces every CA certificate of the state by one with the given validity; returns the undo
+func c03InstallCAValidity(st *RuntimeState, nb, na time.Time) (func(), error) {
+	signers := []crypto.Signer{st.Signer, st.Ed25519Signer}
+	oldCAs, oldRole := st.caCertDer, st.selfRoleCaCertDer
+	var newCAs [][]byte
+	for _, der := range oldCAs {
+		n, err := c03SelfSignedLike(der, signers, nb, na)
+		if err != nil {
+			return nil, err
+		}
+		newCAs = append(newCAs, n)
+	}
+	newRole, err := c03SelfSignedLike(oldRole, signers, nb, na)
+	if err != nil {
+		return nil, err
+	}
+	st.caCertDer, st.selfRoleCaCertDer = newCAs, newRole
+	return func() { st.caCertDer, st.selfRoleCaCertDer = oldCAs, oldRole }, nil
+}
+
 func c03Durations(thorough bool) []string {
 	d := []string{
 		"", "1h", "24h", "24h0m0.000000001s", "24h1s", "23h59m59.999999999s", "100h", "1ns", "999ms", "1s", "1.5s",
@@ -312,6 +393,7 @@ func c03Durations(thorough bool) []string {
 
 type c03Obs struct {
 	cfg       int // index into the configuration table (0 = the base configuration)
+	ca        int // index into the CA-validity table (0 = the CA certificates made at unseal time)
 	path      int // 0 certgen ssh, 1 certgen x509 / kubernetes, 2 role, 3 refresh, 4 cloud-role
 	dur       string
 	hasDur    bool
@@ -361,14 +443,27 @@ func TestVerif_C03(t *testing.T) {
 	types := []string{"ssh", "x509", "x509-kubernetes"}
 	var all []c03Obs
 	configs := []c03Config{{desc: "base", knob: -1}}
+	// CA-validity table: entry 0 = the CA certificates the daemon made when it was unsealed
+	cas := []c03CAVal{{desc: "CA as made at unseal"}}
+	if c, err := x509.ParseCertificate(verifMainCADer(env.state)); err == nil {
+		cas[0].nb, cas[0].na = c.NotBefore.Unix(), c.NotAfter.Unix()
+	} else {
+		t.Fatal(err)
+	}
+	curCA := 0
+	var refreshChain [][]*x509.Certificate // the client credential of the refresh path while another CA validity is installed
 	rng03 := verifRand()
 	durs := c03Durations(verifThorough())
 	maxLife := int64(24 * time.Hour)
 	cfgNote := func(o *c03Obs) string {
-		if o.cfg == 0 {
-			return ""
+		note := ""
+		if o.ca != 0 {
+			note = " with " + cas[o.ca].desc
 		}
-		return " under configuration " + configs[o.cfg].desc
+		if o.cfg == 0 {
+			return note
+		}
+		return note + " under configuration " + configs[o.cfg].desc
 	}
 	oracle := func(o *c03Obs) {
 		if !o.issued {
@@ -398,12 +493,12 @@ func TestVerif_C03(t *testing.T) {
 		if key != "" {
 			res.hit(verifHit{Key: "C03:" + key + ":" + o.certType, Oracle: "certificate validity exceeds min(requested, 24h, authenticated+24h) or wraps",
 				What:     fmt.Sprintf("duration=%q age=%ds type=%s cred=%s%s: %s (ValidAfter=%d ValidBefore=%d now=%d)", o.dur, o.t0-o.iat, o.certType, o.cred, cfgNote(o), what, o.va, o.vbU, o.t1),
-				Case:     map[string]interface{}{"duration": o.dur, "age_s": o.t0 - o.iat, "type": o.certType, "cred": o.cred, "config": configs[o.cfg].desc},
+				Case:     map[string]interface{}{"duration": o.dur, "age_s": o.t0 - o.iat, "type": o.certType, "cred": o.cred, "config": configs[o.cfg].desc, "ca_validity": cas[o.ca].desc},
 				Observed: map[string]interface{}{"not_before": o.va, "not_after": o.vbU, "status": o.status}})
 		}
 	}
 	run := func(env *verifEnv, cfg int, dur string, hasDur bool, age time.Duration, certType, cred string) {
-		o := c03Obs{cfg: cfg, dur: dur, hasDur: hasDur, certType: certType, cred: cred}
+		o := c03Obs{cfg: cfg, ca: curCA, dur: dur, hasDur: hasDur, certType: certType, cred: cred}
 		if certType != "ssh" {
 			o.path = 1
 		}
@@ -476,7 +571,7 @@ func TestVerif_C03(t *testing.T) {
 	// role-requesting certificate and its refresh: fixed maximum, whatever duration is sent along
 	runRole := func(env *verifEnv, cfg int, path, d string) {
 		var req *http.Request
-		o := c03Obs{cfg: cfg, dur: d, hasDur: d != "", certType: path}
+		o := c03Obs{cfg: cfg, ca: curCA, dur: d, hasDur: d != "", certType: path}
 		if d != "" {
 			pd, err := time.ParseDuration(d)
 			o.parseErr = err != nil
@@ -498,7 +593,10 @@ func TestVerif_C03(t *testing.T) {
 				f.Set("duration", d)
 			}
 			req = verifNewRequest("POST", refreshRoleRequestingCertPath, f)
-			chain := env.ipRestrictedChain("svc-automation", []net.IPNet{mustCIDR("10.0.0.0/8")}, &keys.ec.PublicKey)
+			chain := refreshChain
+			if chain == nil {
+				chain = env.ipRestrictedChain("svc-automation", []net.IPNet{mustCIDR("10.0.0.0/8")}, &keys.ec.PublicKey)
+			}
 			o.iat = chain[0][0].NotBefore.Unix()
 			withTLS(req, chain, "10.9.9.9:1234")
 		}
@@ -515,15 +613,17 @@ func TestVerif_C03(t *testing.T) {
 		all = append(all, o)
 		res.eval(fmt.Sprintf("role|%d|%s|%s|%d", cfg, path, d, o.vb-o.va), o.issued)
 		res.bump("type:" + path)
-		if o.issued && (o.vb-o.va > 45*86400 || o.va > o.t1+1 || o.vbU > uint64(1)<<62) {
-			res.hit(verifHit{Key: "C03:role-toolong:" + o.certType, Oracle: "automation certificate valid longer than 45 days / starts in the future",
-				What: fmt.Sprintf("%s certificate with duration=%q%s valid for %d s", o.certType, d, cfgNote(&o), o.vb-o.va), Case: map[string]interface{}{"path": path, "duration": d, "config": configs[cfg].desc}})
+		if o.issued && (o.vb-o.va > 45*86400 || o.vb > o.t1+45*86400+2 || o.va > o.t1+1 || o.vbU > uint64(1)<<62) {
+			res.hit(verifHit{Key: "C03:role-toolong:" + o.certType, Oracle: "automation certificate valid longer than 45 days / beyond 45 days from issuance / starts in the future",
+				What:     fmt.Sprintf("%s certificate with duration=%q%s valid for %d s (NotBefore=%d NotAfter=%d now=%d)", o.certType, d, cfgNote(&o), o.vb-o.va, o.va, o.vb, o.t1),
+				Case:     map[string]interface{}{"path": path, "duration": d, "config": configs[cfg].desc, "ca_validity": cas[o.ca].desc},
+				Observed: map[string]interface{}{"not_before": o.va, "not_after": o.vbU, "status": o.status}})
 		}
 	}
 	// cloud-role certificates: 24 hours
 	runAws := func(env *verifEnv, cfg int, variant int) {
 		req := verifAwsRequest(keys.pemPub)
-		o := c03Obs{cfg: cfg, path: 4, credKind: 3, certType: "aws"}
+		o := c03Obs{cfg: cfg, ca: curCA, path: 4, credKind: 3, certType: "aws"}
 		if variant == 1 {
 			req.URL.RawQuery = "duration=1000h"
 			o.dur = "1000h (query)"
@@ -539,9 +639,9 @@ func TestVerif_C03(t *testing.T) {
 		o.t1, o.status, o.issued = time.Now().Unix(), rr.Code, rr.Code == 200 && c != nil
 		if o.issued {
 			o.va, o.vb, o.vbU = c.notBefore, c.notAfter, c.notAfterU
-			if o.vb-o.va > 86400 || o.va > o.t1+1 || o.vbU > uint64(1)<<62 {
-				res.hit(verifHit{Key: "C03:aws-toolong", Oracle: "cloud-role certificate valid longer than 24 hours",
-					What: fmt.Sprintf("cloud-role certificate%s valid for %d s", cfgNote(&o), o.vb-o.va), Case: map[string]interface{}{"path": "aws", "config": configs[cfg].desc}})
+			if o.vb-o.va > 86400 || o.vb > o.t1+86400+2 || o.va > o.t1+1 || o.vbU > uint64(1)<<62 {
+				res.hit(verifHit{Key: "C03:aws-toolong", Oracle: "cloud-role certificate valid longer than 24 hours / beyond 24 hours from issuance / starts in the future",
+					What: fmt.Sprintf("cloud-role certificate%s valid for %d s (NotBefore=%d NotAfter=%d now=%d)", cfgNote(&o), o.vb-o.va, o.va, o.vb, o.t1), Case: map[string]interface{}{"path": "aws", "config": configs[cfg].desc, "ca_validity": cas[o.ca].desc}})
 			}
 		} else {
 			t.Errorf("aws request failed%s: %d %s", cfgNote(&o), rr.Code, rr.Body.String())
@@ -595,6 +695,52 @@ func TestVerif_C03(t *testing.T) {
 	for i := 0; i < 3; i++ {
 		runAws(env, 0, i)
 	}
+
+	// ---- the CA-validity dimension (base configuration): every X.509 issuing path under CA certificates
+	// whose own validity started an hour ago / starts now / starts in 40 minutes and ends in years / in
+	// 10 minutes.  The clock of issuance alone decides the window.
+	for _, cv := range c03CAValidities() {
+		cv := cv
+		// the refresh path's client credential is minted while the unseal-time role CA is still installed
+		leafChain := env.ipRestrictedChain("svc-automation", []net.IPNet{mustCIDR("10.0.0.0/8")}, &keys.ec.PublicKey)
+		at := time.Now()
+		undo, err := c03InstallCAValidity(env.state, at.Add(cv.nbOff), at.Add(cv.naOff))
+		if err != nil {
+			t.Fatalf("installing %s: %v", cv.desc, err)
+		}
+		func() {
+			defer undo()
+			defer func() { curCA, refreshChain = 0, nil }()
+			roleCA, err := x509.ParseCertificate(env.state.selfRoleCaCertDer)
+			if err != nil {
+				t.Fatal(err)
+			}
+			mainCA, err := x509.ParseCertificate(verifMainCADer(env.state))
+			if err != nil {
+				t.Fatal(err)
+			}
+			cv.nb, cv.na = mainCA.NotBefore.Unix(), mainCA.NotAfter.Unix()
+			cas = append(cas, cv)
+			curCA = len(cas) - 1
+			refreshChain = [][]*x509.Certificate{{leafChain[0][0], roleCA}}
+			res.bump("ca-validity")
+			for _, ct := range []string{"x509", "x509-kubernetes"} {
+				for _, d := range []string{"", "1h", "24h"} {
+					run(env, 0, d, d != "", 0, ct, "cookie")
+				}
+			}
+			run(env, 0, "", false, 8*time.Hour, "x509", "cookie")
+			run(env, 0, "", false, 8*time.Hour, "x509", "tlscert")
+			run(env, 0, "1h", true, 23*time.Hour+59*time.Minute, "x509-kubernetes", "upgraded")
+			run(env, 0, "", false, 0, "ssh", "cookie")
+			for _, d := range []string{"", "1h", "24h"} {
+				runRole(env, 0, "role", d)
+				runRole(env, 0, "refresh", d)
+			}
+			runAws(env, 0, 0)
+		}()
+	}
+	res.Extra["ca_validities"] = len(cas) - 1
 
 	// ---- every other configuration: one reflected knob at an extreme value
 	knobs := c03Knobs()
@@ -660,9 +806,22 @@ func TestVerif_C03(t *testing.T) {
 		}
 	}
 	sb.WriteString("].\n")
-	sb.WriteString("(* (configuration, path, has duration field, parse error, requested ns, credential kind, authenticated-at s, t0 s, t1 s, issued, not_before s, not_after s) *)\n")
-	sb.WriteString("Definition c03_case := (nat * Z * bool * bool * Z * Z * Z * Z * Z * bool * Z * Z)%type.\n")
-	sb.WriteString("Definition c03_bad (c : c03_case) : bool :=\n  let '(cf, p, has, perr, r, ck, iat, t0, t1, issued, va, vb) := c in\n  if perr && (p <? 2) then issued else negb (window_obs_ok (nth cf configs []) limits_now (path_of p) (if has && negb perr then Some r else None) (cred_of ck iat) t0 t1 issued va vb).\n")
+	sb.WriteString("(* CA-validity table: (NotBefore s, NotAfter s) of the CA certificates installed while the case ran; entry 0 = as made at unseal *)\nDefinition cas : list (Z * Z) := [\n")
+	for i, c := range cas {
+		sep := ";"
+		if i == len(cas)-1 {
+			sep = ""
+		}
+		sb.WriteString(fmt.Sprintf(" (%s, %s)%s\n", coqZ(c.nb), coqZ(c.na), sep))
+	}
+	sb.WriteString("].\nDefinition ca_of (i : nat) : ca_validity := let '(a, b) := nth i cas (0, 0) in (a * NS, b * NS).\n")
+	sb.WriteString("(* (configuration, CA validity, path, has duration field, parse error, requested ns, credential kind, authenticated-at s, t0 s, t1 s, issued, not_before s, not_after s) *)\n")
+	sb.WriteString("Definition c03_case := (nat * nat * Z * bool * bool * Z * Z * Z * Z * Z * bool * Z * Z)%type.\n")
+	sb.WriteString("Definition c03_default_case : c03_case := (0%nat, 0%nat, 0, false, false, 0, 0, 0, 0, 0, false, 0, 0).\n")
+	sb.WriteString("Definition c03_bad (c : c03_case) : bool :=\n  let '(cf, ca, p, has, perr, r, ck, iat, t0, t1, issued, va, vb) := c in\n  if perr && (p <? 2) then issued else negb (window_obs_ok_ca (ca_of ca) (nth cf configs []) limits_now (path_of p) (if has && negb perr then Some r else None) (cred_of ck iat) t0 t1 issued va vb).\n")
+	sb.WriteString("(* the property's own predicate on the observation (Model.Lifetime obs_starts_in_future / obs_ends_too_late) *)\n")
+	sb.WriteString("Definition c03_viol_future (c : c03_case) : bool :=\n  let '(cf, ca, p, has, perr, r, ck, iat, t0, t1, issued, va, vb) := c in issued && obs_starts_in_future t1 va.\n")
+	sb.WriteString("Definition c03_viol_toolong (c : c03_case) : bool :=\n  let '(cf, ca, p, has, perr, r, ck, iat, t0, t1, issued, va, vb) := c in\n  issued && obs_ends_too_late limits_now (path_of p) (if has && negb perr then Some r else None) (cred_of ck iat) t1 va vb.\n")
 	// sharded: one list literal of tens of thousands of tuples overflows coqc's stack (thorough tier)
 	const c03Shard = 2000
 	var shardNames []string
@@ -680,18 +839,25 @@ func TestVerif_C03(t *testing.T) {
 			if j == end-1 {
 				sep = ""
 			}
-			sb.WriteString(fmt.Sprintf(" (%d%%nat,%s,%s,%s,%s,%s,%s,%s,%s,%s,%s,%s)%s\n", o.cfg, coqZ(int64(o.path)), coqBool(o.hasDur), coqBool(o.parseErr), coqZ(o.requested), coqZ(int64(o.credKind)), coqZ(o.iat), coqZ(o.t0), coqZ(o.t1), coqBool(o.issued), coqZ(o.va), coqZ(o.vb), sep))
+			sb.WriteString(fmt.Sprintf(" (%d%%nat,%d%%nat,%s,%s,%s,%s,%s,%s,%s,%s,%s,%s,%s)%s\n", o.cfg, o.ca, coqZ(int64(o.path)), coqBool(o.hasDur), coqBool(o.parseErr), coqZ(o.requested), coqZ(int64(o.credKind)), coqZ(o.iat), coqZ(o.t0), coqZ(o.t1), coqBool(o.issued), coqZ(o.va), coqZ(o.vb), sep))
 		}
 		sb.WriteString("].\n")
 	}
 	allCases := "(" + strings.Join(shardNames, " ++ ") + ")"
 	sb.WriteString("Definition c03_all_mismatches := Eval vm_compute in mismatches c03_bad " + allCases + ".\n")
-	sb.WriteString("Definition c03_path_of_case (i : nat) : Z := let '(_, p, _, _, _, _, _, _, _, _, _, _) := nth i " + allCases + " (0%nat, 0, false, false, 0, 0, 0, 0, 0, false, 0, 0) in p.\n")
-	sb.WriteString("Definition c03_cfg_of_case (i : nat) : nat := let '(cf, _, _, _, _, _, _, _, _, _, _, _) := nth i " + allCases + " (0%nat, 0, false, false, 0, 0, 0, 0, 0, false, 0, 0) in cf.\n")
-	sb.WriteString("Definition c03_mismatches := Eval vm_compute in filter (fun i => (c03_path_of_case i <? 2) && Nat.eqb (c03_cfg_of_case i) 0) c03_all_mismatches.\nPrint c03_mismatches.\n")
-	sb.WriteString("Definition c03_role_mismatches := Eval vm_compute in filter (fun i => (2 <=? c03_path_of_case i) && (c03_path_of_case i <? 4) && Nat.eqb (c03_cfg_of_case i) 0) c03_all_mismatches.\nPrint c03_role_mismatches.\n")
-	sb.WriteString("Definition c03_aws_mismatches := Eval vm_compute in filter (fun i => (4 <=? c03_path_of_case i) && Nat.eqb (c03_cfg_of_case i) 0) c03_all_mismatches.\nPrint c03_aws_mismatches.\n")
+	sb.WriteString("Definition c03_case_at (i : nat) : c03_case := nth i " + allCases + " c03_default_case.\n")
+	sb.WriteString("Definition c03_path_of_case (i : nat) : Z := let '(_, _, p, _, _, _, _, _, _, _, _, _, _) := c03_case_at i in p.\n")
+	sb.WriteString("Definition c03_cfg_of_case (i : nat) : nat := let '(cf, _, _, _, _, _, _, _, _, _, _, _, _) := c03_case_at i in cf.\n")
+	sb.WriteString("Definition c03_ca_of_case (i : nat) : nat := let '(_, ca, _, _, _, _, _, _, _, _, _, _, _) := c03_case_at i in ca.\n")
+	sb.WriteString("Definition c03_mismatches := Eval vm_compute in filter (fun i => (c03_path_of_case i <? 2) && Nat.eqb (c03_cfg_of_case i) 0 && Nat.eqb (c03_ca_of_case i) 0) c03_all_mismatches.\nPrint c03_mismatches.\n")
+	sb.WriteString("Definition c03_role_mismatches := Eval vm_compute in filter (fun i => (2 <=? c03_path_of_case i) && (c03_path_of_case i <? 4) && Nat.eqb (c03_cfg_of_case i) 0 && Nat.eqb (c03_ca_of_case i) 0) c03_all_mismatches.\nPrint c03_role_mismatches.\n")
+	sb.WriteString("Definition c03_aws_mismatches := Eval vm_compute in filter (fun i => (4 <=? c03_path_of_case i) && Nat.eqb (c03_cfg_of_case i) 0 && Nat.eqb (c03_ca_of_case i) 0) c03_all_mismatches.\nPrint c03_aws_mismatches.\n")
 	sb.WriteString("Definition c03_config_mismatches := Eval vm_compute in filter (fun i => negb (Nat.eqb (c03_cfg_of_case i) 0)) c03_all_mismatches.\nPrint c03_config_mismatches.\n")
+	sb.WriteString("Definition c03_ca_mismatches := Eval vm_compute in filter (fun i => negb (Nat.eqb (c03_ca_of_case i) 0)) c03_all_mismatches.\nPrint c03_ca_mismatches.\n")
+	sb.WriteString("(* mismatching cases on which the OBSERVATION violates the property (model oracle) *)\n")
+	sb.WriteString("Definition c03_violating_future := Eval vm_compute in filter (fun i => c03_viol_future (c03_case_at i)) c03_all_mismatches.\nPrint c03_violating_future.\n")
+	sb.WriteString("Definition c03_violating_toolong := Eval vm_compute in filter (fun i => c03_viol_toolong (c03_case_at i)) c03_all_mismatches.\nPrint c03_violating_toolong.\n")
+	sb.WriteString("Definition c03_ncas := Eval vm_compute in length cas.\nPrint c03_ncas.\n")
 	// (a unary numeral of the total overflows coqc's stack in the thorough tier: sum the shard lengths in N)
 	var lens []string
 	for _, n := range shardNames {
@@ -704,7 +870,7 @@ func TestVerif_C03(t *testing.T) {
 	}
 	var idx strings.Builder
 	for i, o := range all {
-		idx.WriteString(fmt.Sprintf("%d\tconfig=%q path=%d dur=%q has=%v perr=%v req=%d credkind=%d iat=%d t0=%d t1=%d type=%s cred=%s status=%d issued=%v va=%d vb=%d\n", i, configs[o.cfg].desc, o.path, o.dur, o.hasDur, o.parseErr, o.requested, o.credKind, o.iat, o.t0, o.t1, o.certType, o.cred, o.status, o.issued, o.va, o.vbU))
+		idx.WriteString(fmt.Sprintf("%d\tconfig=%q ca=%q path=%d dur=%q has=%v perr=%v req=%d credkind=%d iat=%d t0=%d t1=%d type=%s cred=%s status=%d issued=%v va=%d vb=%d\n", i, configs[o.cfg].desc, cas[o.ca].desc, o.path, o.dur, o.hasDur, o.parseErr, o.requested, o.credKind, o.iat, o.t0, o.t1, o.certType, o.cred, o.status, o.issued, o.va, o.vbU))
 	}
 	ioutil.WriteFile(filepath.Join(verifOut(), "CasesC03.idx"), []byte(idx.String()), 0644)
 	for _, i := range []int{0, 7, len(all) / 2, len(all) - 1} {
